@@ -840,6 +840,8 @@ static int stack_write_compact(struct reftable_stack *st,
 		entries++;
 	}
 	reftable_iterator_destroy(&it);
+	if (err < 0)
+		goto done;
 
 	err = reftable_merged_table_seek_log(mt, &it, "");
 	if (err < 0)
